@@ -6,6 +6,9 @@ ENGINES = [
     {"name": "progfuzz", "path": "vlib/gen, vlib/runner.py, vlib/props", "kind_free_text":
         "Hypothesis-generated program models -> gcc/clang -> libabigail tools; oracle computed from the model; 16 seeded workers; shrinking; 3x replay",
      "serves_properties": []},
+    {"name": "faultinj", "path": "vlib/props/C36.py", "kind_free_text":
+        "strace-based syscall fault injection on the output descriptor, enumerated over all output calls of a run",
+     "serves_properties": []},
     {"name": "apicheck", "path": "cxx/*.cc, vlib/cxxprop.py", "kind_free_text":
         "rapidcheck / exhaustive enumeration against libabigail.a built from the working tree",
      "serves_properties": []},
@@ -39,6 +42,10 @@ REG = {
                 text="Generated pairs x three random subsets of the nine presentation options x four report modes; exit status and reported interface sets must equal the baseline run; exploration only.", note=_T1),
     "C13": dict(engine="progfuzz", technique="property-based testing (differential: default reporter vs --leaf-changes-only --impacted-interfaces on generated pairs, with and without suppressions)",
                 text="Generated pairs with and without suppressions; leaf mode must set the same status bits and name every interface the default mode lists as changed; one recorded divergence (function suppressions) is a known finding; exploration only.", note=_T1),
+    "C09": dict(engine="progfuzz", level="fault_enumeration", technique="fault enumeration over generated documents (every line-boundary prefix, generated byte corruptions, non-ABI files) with an independent well-formedness oracle (expat)",
+                text="For each generated ABIXML document every proper prefix at a line boundary (every byte in the thorough tier for small documents) plus generated corruptions and non-ABI files is fed to abidiff (both operand positions, against the document and against the binary) and abicompat; whenever expat says the file cannot be loaded the error bit must be set; exhaustive over the prefixes of each document explored.", note=_T1 + "; expat"),
+    "C36": dict(engine="faultinj", level="fault_enumeration", technique="fault enumeration: every k-th output system call of a generated run fails (strace syscall fault injection, ENOSPC / EIO), plus /dev/full",
+                text="For generated documents the output system calls of abidw (stdout, --out-file) and abilint are counted, then each of them is made to fail in turn; a run with an injected failure must exit non-zero; exhaustive in k for every run explored.", note=_T1 + "; strace -e inject as the fault model"),
     "C10": dict(engine="progfuzz", technique="property-based testing (Hypothesis multi-change program pairs; arithmetic invariant between parsed summary, section headers and listed entries; differential --stat)",
                 text="Generated pairs with several changes of mixed kinds (incl. versioned symbols without debug info) x report modes x generated suppressions; summary counts must equal section headers and listed entries, and --stat must print the same summary; exploration only.", note=_T1),
     "C05": dict(engine="progfuzz", technique="property-based testing (Hypothesis program pairs, model-derived expected verdict)",
